@@ -74,4 +74,48 @@ theorem oriented_index (fs : List Face) (hnd : (dirEdges fs).Nodup) (i j : Nat) 
   · exact e'
   · exact absurd h1 (hp j i hj hi l e h2)
 
+theorem nodup_zip_left {α β} : ∀ (l : List α) (m : List β), l.Nodup → (l.zip m).Nodup
+  | [], _, _ => by simp
+  | _ :: _, [], _ => by simp
+  | a :: l, b :: m, h => by
+    rw [List.nodup_cons] at h
+    rw [List.zip_cons_cons, List.nodup_cons]
+    exact ⟨fun hm => h.1 (List.of_mem_zip hm).1, nodup_zip_left l m h.2⟩
+
+/-- the directed sides of a cyclic list without repetition are pairwise distinct -/
+theorem sides_nodup (l : List Nat) (h : l.Nodup) : (sides l).Nodup := by
+  cases l with
+  | nil => simp [sides]
+  | cons a t => exact nodup_zip_left _ _ h
+
+/-- two primal faces are glued along at most one edge -/
+def ShareAtMostOneEdge (fs : List Face) : Prop :=
+  ∀ F G e e', e ∈ sides (fs.getD F []) → (e.2, e.1) ∈ sides (fs.getD G []) →
+    e' ∈ sides (fs.getD F []) → (e'.2, e'.1) ∈ sides (fs.getD G []) → e = e'
+
+/-- executable check of `ShareAtMostOneEdge` -/
+def shareAtMostOneEdgeB (fs : List Face) : Bool :=
+  fs.all fun f => fs.all fun g => (sides f).all fun e => (sides f).all fun e' =>
+    !((sides g).contains (e.2, e.1) && (sides g).contains (e'.2, e'.1)) || e == e'
+
+theorem getD_mem_or_nil (fs : List Face) (k : Nat) : fs.getD k [] ∈ fs ∨ fs.getD k [] = [] := by
+  by_cases h : k < fs.length
+  · left; have : fs.getD k [] = fs[k] := by simp [List.getD, h]
+    rw [this]; exact List.getElem_mem h
+  · right; simp [List.getD, Nat.not_lt.mp h]
+
+theorem shareAtMostOneEdge_of_check (fs : List Face) (h : shareAtMostOneEdgeB fs = true) : ShareAtMostOneEdge fs := by
+  intro F G e e' h1 h2 h3 h4
+  rcases getD_mem_or_nil fs F with hF | hF
+  · rcases getD_mem_or_nil fs G with hG | hG
+    · simp only [shareAtMostOneEdgeB, List.all_eq_true] at h
+      have := h _ hF _ hG e h1 e' h3
+      simp only [Bool.or_eq_true, Bool.not_eq_true', Bool.and_eq_false_iff, beq_iff_eq] at this
+      rcases this with (c | c) | c
+      · rw [List.contains_iff_mem.mpr h2] at c; exact absurd c (by decide)
+      · rw [List.contains_iff_mem.mpr h4] at c; exact absurd c (by decide)
+      · exact c
+    · rw [hG] at h2; simp [sides] at h2
+  · rw [hF] at h1; simp [sides] at h1
+
 end Mouette.C14Dual
